@@ -57,7 +57,7 @@ def cutoff(sa, sb, tol):
 
 def bounds(tier):
     return {"shell_counts": "2..5", "shell_sets": {k: len(v) for k, v in shellsets(tier).items()},
-            "geometries_per_set": 2 + 2 * len(TOLS), "tolerances": TOLS + [None], "transform": [False, True],
+            "geometries_per_set": 2 + 2 * len(TOLS), "tolerances": TOLS + [None], "transform": [False, True], "transform_entry_scale": [1, 40, 1e-3],
             "type_patterns": "all 2^n for n<=3, 4 patterns above" if tier != "quick" else "2 per set"}
 
 
@@ -127,7 +127,13 @@ def evaluate(cfg):
     Snone = overlap_integral(g, tol_screen=None)
     o.call()
     o.same("tol_screen=None is the default call", Snone, S0, key="none-is-default")
-    T = np.array([hvec("scrT%d" % r, n, -1, 1) for r in range(max(1, n - 1))])
+    # transformation magnitude class: entries within [-1, 1], up to 40, down to 1e-3 (the tolerance is a property of
+    # the primitive shell pairs, whatever combination of them is formed afterwards)
+    import json as _json
+    import zlib as _zlib
+    tscale = (1.0, 40.0, 1e-3)[_zlib.crc32(_json.dumps(cfg, sort_keys=True).encode()) % 3]
+    o.notes["transform_scale_%g" % tscale] = 1
+    T = tscale * np.array([hvec("scrT%d" % r, n, -1, 1) for r in range(max(1, n - 1))])
     ST0 = overlap_integral(g, transform=T)
     o.call()
     o.cmp("unscreened transformed == T S T^t", ST0, T @ S0 @ T.T, 1e-12, np.abs(T) @ np.abs(S0) @ np.abs(T).T,
